@@ -36,6 +36,9 @@ fn comp() -> BoxedStrategy<String> {
         1 => Just("x..".to_string()),
         1 => Just(" ".to_string()),
         1 => Just("...".to_string()),
+        2 => Just("..\\bs".to_string()),
+        1 => Just("..\\..\\bs".to_string()),
+        1 => Just("a\\..\\..\\bs".to_string()),
     ]
     .boxed()
 }
@@ -66,8 +69,14 @@ fn strategy(_t: Tier) -> BoxedStrategy<Case> {
     .boxed()
 }
 
+/// `..` segments of one component, also when the separator is a backslash (a platform-confused implementation
+/// might treat it as one)
+fn dd(c: &str) -> usize {
+    c.split(|ch| ch == '/' || ch == '\\').filter(|s| *s == "..").count()
+}
+
 fn dotdots(p: &PathSpec) -> usize {
-    p.comps.iter().filter(|c| *c == "..").count()
+    p.comps.iter().map(|c| dd(c)).sum()
 }
 
 /// Render a path; absolute ones are placed under the worker's canary directory.
@@ -75,7 +84,12 @@ fn render(p: &PathSpec, canary: &str) -> String {
     let sep = if p.double_slash { "//" } else { "/" };
     let body = p.comps.join(sep);
     if p.absolute {
-        format!("{}/{}", canary, body)
+        if p.double_slash && p.comps.iter().any(|c| c.contains('\\')) {
+            // an absolute path written with backslashes only
+            format!("{}/{}", canary, body).replace('/', "\\")
+        } else {
+            format!("{}/{}", canary, body)
+        }
     } else {
         body
     }
@@ -107,11 +121,12 @@ pub fn check(case: &Case) -> Outcome {
     let mut trim = |p: &mut PathSpec, budget: &mut usize| {
         let mut kept = vec![];
         for c in p.comps.drain(..) {
-            if c == ".." {
-                if *budget == 0 {
+            let n = dd(&c);
+            if n > 0 {
+                if *budget < n {
                     continue;
                 }
-                *budget -= 1;
+                *budget -= n;
             }
             kept.push(c);
         }
@@ -133,6 +148,7 @@ pub fn check(case: &Case) -> Outcome {
     o.class_if(hostile(&case.name), "hostile-name");
     o.class_if(case.paths.iter().any(|p| hostile(p)), "hostile-path");
     o.class_if(case.name.absolute || case.paths.iter().any(|p| p.absolute), "absolute");
+    o.class_if(case.name.comps.iter().chain(case.paths.iter().flat_map(|p| p.comps.iter())).any(|c| c.contains('\\')), "backslash-component");
     o.class_if(
         case.paths.iter().any(|p| p.comps.first().map(|c| c != "..").unwrap_or(false) && dotdots(p) > 0),
         "dotdot-after-normal-component",
@@ -231,7 +247,7 @@ fn run(ctx: &WorkerCtx) -> WorkerReport {
 pub fn def() -> PropDef {
     PropDef {
         id: "C04",
-        rule: "name/path strings assembled from the component alphabet {.., ., empty, a, sub, ..x, x.., space, ...} joined by / or //, optionally absolute (absolute ones point into a per-worker canary directory), for single-file and multi-file torrents with a small valid payload; the real Extractor runs in <private root>/c/l1/l2. Oracle: recursive listing (names, sizes) of the private root outside the cwd is unchanged whether extraction reports Done or Fail; for multi-file torrents with a plain name every created entry is inside ./<name>/. Refusing and neutralising are both accepted. Non-trivial = some name/path has a `..` or is absolute; distinct by hash of the case.",
+        rule: "name/path strings assembled from the component alphabet {.., ., empty, a, sub, ..x, x.., space, ..., and backslash-separated climbs such as ..\\bs} joined by / or //, optionally absolute (absolute ones point into a per-worker canary directory), for single-file and multi-file torrents with a small valid payload; the real Extractor runs in <private root>/c/l1/l2. Oracle: recursive listing (names, sizes) of the private root outside the cwd is unchanged whether extraction reports Done or Fail; for multi-file torrents with a plain name every created entry is inside ./<name>/. Refusing and neutralising are both accepted. Non-trivial = some name/path has a `..` or is absolute; distinct by hash of the case.",
         assumptions: &[
             "the number of `..` components per resulting path is capped at the depth of the cwd below the worker's private root (3), so that every escape lands where the oracle looks",
             "symlinks already present in the download directory are out of scope (the property speaks about names and paths in the metainfo)",
@@ -241,7 +257,7 @@ pub fn def() -> PropDef {
             cases: |t| t.pick(20_000, 300_000),
             run,
             replay: |v| replay_case::<Case>(v, check),
-            min_class: &[("hostile-path", 0.2981), ("hostile-name", 0.1), ("absolute", 0.1), ("dotdot-after-normal-component", 0.1)],
+            min_class: &[("hostile-path", 0.2981), ("hostile-name", 0.1), ("absolute", 0.1), ("dotdot-after-normal-component", 0.1), ("backslash-component", 0.15)],
         }],
     }
 }
